@@ -2809,6 +2809,25 @@ struct Explorer {
         }
       }
     }
+    // 2d: "every started command is also reported finished" -- in an invocation that was not interrupted (neither by a
+    // signal nor by a command that died of one: both returned above) no command is left behind running, and none ends
+    // without ninja ever asking for its result
+    for (auto& c : r.cmds) {
+      if (c.finished && !c.unreaped) continue;
+      Violation x; x.prop = "C20"; x.clause = "started-command-never-reported-finished";
+      x.detail = "'" + c.spec.id() + "' was started and " + (c.finished ? "ran to its end, but ninja never took its result: no status line, its output dropped"
+                                                                         : "was still running when ninja exited");
+      x.facts.set("stmt", c.spec.id());
+      // Builder::Build gives the whole build up on the spot -- Cleanup(), return -- when a command cannot be started (its
+      // output directory or response file cannot be made, no pipe, no process) or when the result of a finished one cannot
+      // be processed (log write error, unparsable dyndep file): the final message then names no failed subcommand
+      bool gave_up = T.find("ninja: build stopped: ") != string::npos && T.find("subcommand failed") == string::npos &&
+                     T.find("subcommands failed") == string::npos && T.find("cannot make progress due to previous errors") == string::npos &&
+                     T.find("interrupted by user") == string::npos;
+      x.facts.set("the_build_was_given_up_on_the_spot_for_a_reason_other_than_a_failed_command", gave_up);
+      out->push_back(x);
+      break;
+    }
     // 2c: a status format without counters (NINJA_STATUS without a placeholder): every finished command still has a line of
     // its own, also when several commands are described by the same text
     if (op.cfg.env.count("NINJA_STATUS") && op.cfg.env.at("NINJA_STATUS").find('%') == string::npos && !verbose) {
